@@ -325,6 +325,15 @@ class Normaliser:
         for n in ast.walk(fn):
             if isinstance(n, (ast.Match, ast.IfExp)):
                 return True
+            if isinstance(n, ast.For):
+                it = n.iter
+                if isinstance(it, ast.Call) and isinstance(it.func, ast.Attribute) and it.func.attr == 'get':
+                    it = it.func.value
+                elif isinstance(it, ast.Subscript):
+                    it = it.value
+                if isinstance(it, (ast.Tuple, ast.List)) or (isinstance(it, ast.Attribute) and it.attr.isupper()) \
+                        or (isinstance(it, ast.Name) and it.id.isupper()):
+                    return True
             if isinstance(n, ast.Assign) and isinstance(n.targets[0], (ast.Tuple, ast.List)) \
                     and isinstance(n.value, ast.Call) and isinstance(n.value.func, ast.Name) \
                     and n.value.func.id[:1].isupper():
@@ -353,9 +362,168 @@ class Normaliser:
             c2 = self._format_to_fstring(fn) or c2
             c3 = self._inline_calls(fn, rel, mod, cls, stack, depth) if depth < MAX_DEPTH else False
             c4 = self._namedtuple_unpack(fn, mod)
-            changed = changed or c1 or c2 or c3 or c4
-            if not (c1 or c2 or c3 or c4):
+            c5 = self._unroll_constant_tables(fn, mod, cls)
+            changed = changed or c1 or c2 or c3 or c4 or c5
+            if not (c1 or c2 or c3 or c4 or c5):
                 break
+        return changed
+
+    # ---- loops over constant tables ------------------------------------------------------
+    @staticmethod
+    def _simple_elem(e: ast.AST) -> bool:
+        if isinstance(e, (ast.Tuple, ast.List)):
+            return all(Normaliser._simple_elem(x) for x in e.elts)
+        return isinstance(e, (ast.Constant, ast.Name, ast.Attribute)) and not any(
+            isinstance(x, ast.Call) for x in ast.walk(e))
+
+    def _const_table(self, e: ast.AST, mod, cls):
+        """the literal a loop iterates over: written in place, or a class / module level name bound once
+        to a tuple / list / dict literal whose elements are constants, names or attributes.
+        -> (literal node, owner class or None) or None"""
+        if isinstance(e, (ast.Tuple, ast.List)):
+            return (e, None) if self._simple_elem(e) else None
+        owner = None
+        name = None
+        if isinstance(e, ast.Attribute) and isinstance(e.value, ast.Name):
+            if e.value.id in ('self', 'cls', 'clz') or (cls is not None and e.value.id == cls.name):
+                owner, name = cls, e.attr
+            else:
+                owner = next((c for c in getattr(mod, 'body', []) if isinstance(c, ast.ClassDef)
+                              and c.name == e.value.id), None)
+                name = e.attr
+            if owner is None:
+                return None
+        elif isinstance(e, ast.Name):
+            name = e.id
+        else:
+            return None
+        body = owner.body if owner is not None else getattr(mod, 'body', [])
+        defs = []
+        for st in body:
+            if isinstance(st, ast.Assign) and len(st.targets) == 1 and isinstance(st.targets[0], ast.Name) \
+                    and st.targets[0].id == name:
+                defs.append(st.value)
+            elif isinstance(st, ast.AnnAssign) and isinstance(st.target, ast.Name) and st.target.id == name \
+                    and st.value is not None:
+                defs.append(st.value)
+        if len(defs) != 1 or not name.isupper():
+            return None                     # only names spelt as constants
+        lit = defs[0]
+        if isinstance(lit, (ast.Tuple, ast.List)) and self._simple_elem(lit):
+            return lit, owner
+        if isinstance(lit, ast.Dict) and all(isinstance(k, ast.Constant) for k in lit.keys) \
+                and all(isinstance(v, (ast.Tuple, ast.List)) and self._simple_elem(v) for v in lit.values):
+            return lit, owner
+        return None
+
+    def _unroll_constant_tables(self, fn: ast.AST, mod, cls) -> bool:
+        """`for fmt, name in TABLE: BODY` over a literal table becomes BODY once per row with the row's
+        values in place of the loop variables; `TABLE.get(key, ())` / `TABLE[key]` over a dict of rows
+        becomes an if/elif over the keys.  Only when BODY neither assigns the loop variables nor
+        contains break / continue / return, and the result stays small."""
+        changed = False
+        for blk in list(self._blocks(fn)):
+            i = 0
+            while i < len(blk):
+                st = blk[i]
+                i += 1
+                if not isinstance(st, ast.For) or st.orelse:
+                    continue
+                it = st.iter
+                key = None
+                strict = False
+                table = None
+                if isinstance(it, ast.Call) and isinstance(it.func, ast.Attribute) and it.func.attr == 'get' \
+                        and len(it.args) == 2 and isinstance(it.args[1], (ast.Tuple, ast.List)) and not it.args[1].elts:
+                    table, key = self._const_table(it.func.value, mod, cls), it.args[0]
+                elif isinstance(it, ast.Subscript) and not isinstance(it.slice, ast.Slice):
+                    table, key, strict = self._const_table(it.value, mod, cls), it.slice, True
+                else:
+                    table = self._const_table(it, mod, cls)
+                if table is None:
+                    continue
+                lit, owner = table
+                if (key is None) != (not isinstance(lit, ast.Dict)):
+                    continue
+                targets = [x.id for x in ast.walk(st.target) if isinstance(x, ast.Name)]
+                bad = False
+                for n in ast.walk(ast.Module(body=st.body, type_ignores=[])):
+                    if isinstance(n, (ast.Break, ast.Continue, ast.Return, ast.Yield, ast.YieldFrom)):
+                        bad = True
+                    if isinstance(n, ast.Name) and isinstance(n.ctx, (ast.Store, ast.Del)) and n.id in targets:
+                        bad = True
+                if bad:
+                    continue
+                class_names = set()
+                if owner is not None:
+                    for x in owner.body:
+                        if isinstance(x, ast.Assign):
+                            class_names |= {t.id for t in x.targets if isinstance(t, ast.Name)}
+                        elif isinstance(x, ast.AnnAssign) and isinstance(x.target, ast.Name):
+                            class_names.add(x.target.id)
+
+                def rows_to_stmts(rows) -> list | None:
+                    out: list[ast.stmt] = []
+                    for row in rows:
+                        mapping: dict[str, ast.AST] = {}
+
+                        def bind(t, v) -> bool:
+                            if isinstance(t, ast.Name):
+                                mapping[t.id] = v
+                                return True
+                            if isinstance(t, (ast.Tuple, ast.List)) and isinstance(v, (ast.Tuple, ast.List)) \
+                                    and len(t.elts) == len(v.elts):
+                                return all(bind(a, b) for a, b in zip(t.elts, v.elts))
+                            return False
+                        if not bind(st.target, row):
+                            return None
+                        if owner is not None:
+                            # a bare name inside a class-level table is a class attribute
+                            class Q(ast.NodeTransformer):
+                                def visit_Name(self, node):
+                                    if node.id in class_names:
+                                        return ast.Attribute(value=ast.Name(id=owner.name, ctx=ast.Load()),
+                                                             attr=node.id, ctx=ast.Load())
+                                    return node
+                            mapping = {k: Q().visit(clone(v)) for k, v in mapping.items()}
+                        body = clone(st.body)
+                        holder = ast.Module(body=body, type_ignores=[])
+                        _Sub(mapping, {}).visit(holder)
+                        out.extend(holder.body)
+                        if len(out) > 150:
+                            return None
+                    return out
+                if isinstance(lit, ast.Dict):
+                    arms = []
+                    ok = True
+                    for k, v in zip(lit.keys, lit.values):
+                        body = rows_to_stmts(v.elts)
+                        if body is None:
+                            ok = False
+                            break
+                        arms.append((k, body or [ast.Pass()]))
+                    if not ok or not arms:
+                        continue
+                    node = None
+                    tail: list[ast.stmt] = []
+                    if strict:
+                        tail = [ast.Raise(exc=ast.Call(func=ast.Name(id='KeyError', ctx=ast.Load()),
+                                                       args=[clone(key)], keywords=[]), cause=None)]
+                    for k, body in reversed(arms):
+                        test = ast.Compare(left=clone(key), ops=[ast.Eq()], comparators=[clone(k)])
+                        node = ast.If(test=test, body=body, orelse=([node] if node is not None else tail))
+                    new_stmts = [node]
+                else:
+                    body = rows_to_stmts(lit.elts)
+                    if body is None:
+                        continue
+                    new_stmts = body or [ast.Pass()]
+                for x in new_stmts:
+                    ast.copy_location(x, st)
+                    ast.fix_missing_locations(x)
+                blk[i - 1:i] = new_stmts
+                i += len(new_stmts) - 1
+                changed = True
         return changed
 
     def _namedtuple_unpack(self, fn: ast.AST, mod) -> bool:
